@@ -222,13 +222,30 @@ def matchSel (t : Str) (ls : C04.Labels) : Bool :=
 
 def strLabels (ls : C04.Labels) : List (Str × Str) := ls.map (fun kv => (kv.1.toList, kv.2.toList))
 
-def showCidr (c : C04.Cidr) : String := s!"{if c.v6 then "6" else "4"}/{c.addr}/{c.len}"
+/-- decimal digits of `n`, least significant first (fuel `f` > number of digits) -/
+def digitsLE : Nat → Nat → List Nat
+  | 0, _ => []
+  | f + 1, n => (n % 10) :: (if n / 10 = 0 then [] else digitsLE f (n / 10))
+
+def digitChar (d : Nat) : Char := Char.ofNat (48 + d)
+
+/-- decimal rendering of a number (own renderer: `showNat n = toString n`, checked by the correspondence
+run; its injectivity is proved in `Proofs/C01Show`) -/
+def showNatL (n : Nat) : List Char := ((digitsLE (n + 1) n).reverse).map digitChar
+
+def showCidrL (c : C04.Cidr) : List Char :=
+  (if c.v6 then '6' else '4') :: '/' :: (showNatL c.addr ++ '/' :: showNatL c.len)
+
+/-- the member string as characters -/
+def showMemberL : C04.Member → List Char
+  | .cidr c => 'c' :: showCidrL c
+  | .ipp v6 a po pr => 'p' :: (if v6 then '6' else '4') :: '/' :: (showNatL a ++ '/' :: (showNatL pr ++ '/' :: showNatL po))
+
+def showCidr (c : C04.Cidr) : String := String.ofList (showCidrL c)
 
 /-- the member string handed to the EventSequencer (the harness converts the real one
-to the same number format). -/
-def showMember : C04.Member → String
-  | .cidr c => "c" ++ showCidr c
-  | .ipp v6 a po pr => s!"p{if v6 then "6" else "4"}/{a}/{pr}/{po}"
+to the same number format): `c4/<addr>/<len>`, `p4/<addr>/<proto>/<port>`. -/
+def showMember (m : C04.Member) : String := String.ofList (showMemberL m)
 
 def epKeyStr : C02.EpKey → String
   | .wep id => "w:" ++ id
